@@ -473,7 +473,7 @@ func runC02(res *lib.Result, tier string, seed int64, args []string) error {
 		var impl []string
 		failed := false
 		for _, o := range ops {
-			rel := fmt.Sprintf("doc%d.lua", o.uri)
+			rel := c02DocName(o.uri)
 			switch o.kind {
 			case 'o':
 				// what is on disk is not what the client holds (stale content, a BOM, other line ends): the
@@ -518,7 +518,7 @@ func runC02(res *lib.Result, tier string, seed int64, args []string) error {
 			}
 			cur := map[int]string{}
 			for u := 0; u < 3; u++ {
-				if t, ok := sess.CachedText(fmt.Sprintf("doc%d.lua", u)); ok {
+				if t, ok := sess.CachedText(c02DocName(u)); ok {
 					cur[u] = string(t)
 				}
 			}
@@ -527,7 +527,7 @@ func runC02(res *lib.Result, tier string, seed int64, args []string) error {
 			// that requests are answered from was analysed from) is the text it holds for it. A buffer with syntax errors
 			// is not analysed further (its errors are shown, requests keep the last good analysis).
 			for u, held := range cur {
-				rel := fmt.Sprintf("doc%d.lua", u)
+				rel := c02DocName(u)
 				if _, nerr, _ := lib.ParseDump([]byte(held)); nerr > 0 {
 					continue
 				}
@@ -561,6 +561,12 @@ func runC02(res *lib.Result, tier string, seed int64, args []string) error {
 	}
 	res.Extra["driver_ops"] = drv.N
 	return nil
+}
+
+// c02DocName: the three documents of a history; their names carry characters that are literal in the path of a
+// URI ('+' is not a space there, '@', '~', ',' need no escaping)
+func c02DocName(u int) string {
+	return []string{"doc0.lua", "a+b1.lua", "c@d~2,x.lua"}[u%3]
 }
 
 // parseC02Hist reads a "hist …" line back into ops and recomputes the client's text with the
